@@ -4,8 +4,8 @@
 EXTENDS Integers, Sequences, TLC, Json
 CONSTANT MaxLen
 VARIABLE s, n
-Alphabet == {"\"", "\\", "\n", "\t", ":", " ", "@", "{", "a"}
-Shapes == {"\"x\": ", "\": \"", "\"k\":  \"v\"", "a\":  b", "{\"a\":  1}", "\\\":  ", "}\n{", "  \"a\":  "}
+Alphabet == {"\"", "\\", "\n", "\t", ":", " ", "@", "{", "a", ",", "["}
+Shapes == {"\"x\": ", "\": \"", "\"k\":  \"v\"", "a\":  b", "{\"a\":  1}", "\\\":  ", "}\n{", "  \"a\":  ", "a, {b} or [c, [d]]", "tail, ", "x,  \"y\""}
 Init == s = "" /\ n = 0
 Next == \/ n < MaxLen /\ \E c \in Alphabet : s' = s \o c /\ n' = n + 1
         \/ n = 0 /\ \E x \in Shapes : s' = x /\ n' = MaxLen + 1
